@@ -21,7 +21,7 @@ import m17ref  # noqa: E402
 from props import c07 as C07  # noqa: E402
 
 PROPERTY = "C20"
-CONSTS = ["app"]
+CONSTS = ["app", "crc", "framedecoder", "viterbi", "golay", "puncture", "interleave", "randomizer", "mod"]  # the last eight: cone of the end-to-end composition (C13 + C01)
 COQ_TARGETS = ["Properties_C20.vo", "Extract_C20.vo", "Extract_C07.vo"]
 PROPERTIES_FILE = "Properties_C20.v"
 LEVEL = "other"
